@@ -428,7 +428,7 @@ class C12Access(Machine):
                           ("survival_weight", p.survival_weight),
                           ("interaction_weight", p.interaction_weight)]
                 for key, val in checks:
-                    if float(val) != float(d[key]):
+                    if val is None or float(val) != float(d[key]):
                         raise Violation("C12:filegen-field", "generated event %d (stored event %d): %s=%r, "
                                         "stored %r" % (pos, i, key, val, d[key]))
                 for ax, key in enumerate(("direction_x", "direction_y", "direction_z")):
